@@ -107,7 +107,10 @@ def main(c):
         eol = rnd.choice(["\n", "\n", "\r\n", "\r"])
         codec.append("kf " + hx(eol.join(ls) + rnd.choice([eol, eol, "", "junk"])))
         pw = "".join(rnd.choice("pass word\t!") for _ in range(rnd.choice([0, 1, 10, 30, 2045, 2046, 2047, 2048, 2049, 3000])))
-        codec.append("pf " + hx(pw + rnd.choice(["", "\n", "\r\n", "\n\n", "\nx", "\n\r\n"])))
+        tail = rnd.choice(["", "\n", "\r\n", "\n\n", "\nx", "\n\r\n"])
+        codec.append("pf " + hx(pw + tail))
+        if rnd.random() < 0.25:
+            codec.append("pff " + hx(pw + tail))          # the same through a named pipe
     c.cov["calls"] = len(codec) + len(nums)
     per = 2500
     for name, lines, mod in (("codec", codec, "CodecTrace"), ("nums", nums, "ParsenumTrace")):
